@@ -811,6 +811,34 @@ func rulesC02(c *Ctx) {
 		}
 	})
 
+	c.Rule("R-C02-13", "errors.Is is asked the right way round: the sentinel (a package-level error value) is the target, the error in hand is the chain that is searched — errors.Is(sentinel, err) is true only for the bare sentinel and misses every wrapped one (the reject codes, ErrRejected, ErrNotHandled, ErrSessionMissing all travel wrapped)", func() {
+		errIs := c.Std("errors", "", "Is")
+		n := 0
+		for _, rel := range []string{pJ, pM, pA, pO} {
+			for _, f := range c.funcsWithLits(rel) {
+				if f.Body == nil {
+					continue
+				}
+				for _, call := range f.CallsIn(f.Body, errIs, false) {
+					if len(call.Args) != 2 {
+						continue
+					}
+					pkgLevel := func(e ast.Expr) bool {
+						v, ok := f.ObjOf(e).(*types.Var)
+						return ok && v.Pkg() != nil && v.Parent() == v.Pkg().Scope()
+					}
+					if !pkgLevel(call.Args[0]) && !pkgLevel(call.Args[1]) {
+						continue // neither is a sentinel: nothing to say
+					}
+					n++
+					c.touch(f)
+					c.Check(pkgLevel(call.Args[1]) && !pkgLevel(call.Args[0]), "errors.Is-target-is-the-sentinel:"+f.Name()+"#"+itoa(n), f, call, "errors.Is(%s, %s): the second argument is the sentinel", exprStr(call.Args[0]), exprStr(call.Args[1]))
+				}
+			}
+		}
+		c.Pin("errors.Is calls against a sentinel", n, 18)
+	})
+
 	c.Rule("R-C02-12", "a transport's Write treats the context it is given as ended only through ctx.Err() / ctx.Done(): the response of a cancelled call is written under notDone{req.ctx}, which hides the cancellation from Err and Done but not from context.Cause (it reads a Value) — a Write that asks Cause refuses the response and the connection is declared broken", func() {
 		n := 0
 		for _, f := range c.funcsWithLits(pM) {
